@@ -17,6 +17,8 @@ pub struct VAlloc;
 
 const MAGIC_TRACKED: u64 = 0x4d51_5645_5249_4601;
 const MAGIC_PLAIN: u64 = 0x4d51_5645_5249_4600;
+const MAGIC_FREED: u64 = 0x4d51_5645_5249_46ff;
+pub static DOUBLE_FREES: AtomicUsize = AtomicUsize::new(0);
 
 thread_local! {
     /// >0: allocations on this thread are attributed to the code under test
@@ -81,14 +83,22 @@ unsafe impl GlobalAlloc for VAlloc {
         let h = hdr(l.align());
         let base = ptr.sub(h);
         let hp = ptr.sub(16) as *mut u64;
+        if *hp == MAGIC_FREED {
+            // freed before and still in quarantine: a double free by the code
+            // under test (e.g. a bookkeeping object destroyed twice). Swallow it
+            // - the block goes back once - and report it.
+            DOUBLE_FREES.fetch_add(1, Relaxed);
+            return;
+        }
         if *hp == MAGIC_TRACKED {
             LIVE_BYTES.fetch_sub(l.size() as isize, Relaxed);
             LIVE_BLOCKS.fetch_sub(1, Relaxed);
-            *hp = MAGIC_PLAIN;
         }
+        let deferring = DEFER_ON.load(Relaxed) && DEFER_THREAD.try_with(|d| d.get()).unwrap_or(false);
+        *hp = if deferring { MAGIC_FREED } else { MAGIC_PLAIN };
         let total = l.size() + h;
         let align = h.max(l.align());
-        if DEFER_ON.load(Relaxed) && DEFER_THREAD.try_with(|d| d.get()).unwrap_or(false) {
+        if deferring {
             qlock();
             let n = QLEN.load(Relaxed);
             if n < QCAP {
@@ -161,6 +171,10 @@ pub fn defer_end() {
             )
         };
     }
+}
+
+pub fn take_double_frees() -> usize {
+    DOUBLE_FREES.swap(0, SeqCst)
 }
 
 pub fn live() -> (isize, isize) {
